@@ -340,10 +340,9 @@ def seq_issues(trees):
     return out
 
 
-@st.composite
-def programs(draw, allow_known=False, max_depth=4):
-    """-> dict(src, labels, nontrivial, excluded)"""
-    g = G(draw, max_depth=max_depth, allow_known=allow_known)
+def _one(draw, allow_known=False, max_depth=4, prefix="", allow_boom=True):
+    """-> dict(body=<helper fdefs + main function named {prefix}main>, labels, nontrivial, excluded)"""
+    g = G(draw, max_depth=max_depth, allow_known=allow_known, allow_boom=allow_boom)
     lines = ["xs = array(10, 20, 30)"]
     labels = set()
     n_stmts = draw(st.integers(1, 4))
@@ -374,8 +373,8 @@ def programs(draw, allow_known=False, max_depth=4):
                 iss = issues(("and", [("blit", True), ts[0]]))
             elif kind == "return":
                 ts = [g.int_tree()]
-                fdefs.append(f"@guppy\ndef f{si}(xs: array[int, 3]) -> int:\n    return {render(ts[0])}\n")
-                st_lines = [f'result("r", f{si}(xs))']
+                fdefs.append(f"@guppy\ndef {prefix}f{si}(xs: array[int, 3]) -> int:\n    return {render(ts[0])}\n")
+                st_lines = [f'result("r", {prefix}f{si}(xs))']
                 iss = issues(ts[0])
             elif kind == "args":
                 ts = g.seq([lambda n: g.int_tree(1, nl=n), lambda n: g.bool_tree(1, nl=n), lambda n: g.int_tree(1, nl=n)], False)
@@ -429,9 +428,33 @@ def programs(draw, allow_known=False, max_depth=4):
                 if _contains(t, name):
                     labels.add("has:" + name)
     body = "\n".join("    " + l for l in lines)
-    src = HELPERS + "\n" + "\n".join(fdefs) + "\n@guppy\ndef main() -> None:\n" + body + "\n"
-    return {"src": src, "labels": sorted(labels), "nontrivial": max_leafcount >= 3 and sc,
+    src = "\n".join(fdefs) + f"\n@guppy\ndef {prefix}main() -> None:\n" + body + "\n"
+    return {"body": src, "labels": sorted(labels), "nontrivial": max_leafcount >= 3 and sc,
             "excluded": sorted(known), "boom": g.boomed}
+
+
+@st.composite
+def programs(draw, allow_known=False, max_depth=4):
+    """-> dict(src, labels, nontrivial, excluded)"""
+    r = _one(draw, allow_known, max_depth)
+    r["src"] = HELPERS + "\n" + r.pop("body")
+    return r
+
+
+@st.composite
+def program_batches(draw, k=5, allow_known=False, max_depth=4):
+    """k programs in one module (one selene build); only the last one may panic.
+    -> dict(src, parts=[{src, labels, nontrivial, excluded}])"""
+    parts = []
+    bodies = []
+    for i in range(k):
+        r = _one(draw, allow_known, max_depth, prefix=f"p{i}_", allow_boom=(i == k - 1))
+        b = r.pop("body")
+        bodies.append(b)
+        r["src"] = HELPERS + "\n" + b + f"\n@guppy\ndef main() -> None:\n    p{i}_main()\n"
+        parts.append(r)
+    main = "@guppy\ndef main() -> None:\n" + "".join(f"    p{i}_main()\n" for i in range(k))
+    return {"src": HELPERS + "\n" + "\n".join(bodies) + "\n" + main, "parts": parts}
 
 
 def _contains(t, name):
